@@ -144,7 +144,7 @@ pub fn liveness_bound(sim: &Sim) -> u64 {
 }
 
 pub fn all_obtained(sim: &Sim) -> bool {
-    sim.outstanding.iter().all(|c| c[0].iter().all(|x| *x == 0) && c[1].iter().all(|x| *x == 0))
+    sim.outstanding_n.iter().all(|c| c[0].iter().all(|x| *x == 0) && c[1].iter().all(|x| *x == 0))
 }
 
 /// Runs one traffic execution. The monitors decide; the summary is for evidence.
